@@ -59,6 +59,8 @@ class BodyPart(multipart.BodyPart):
             parse_options: MultipartParseOptions,
         ): ...
 
+    _data_too_large: bool = False
+
     stream: BufferedReader  # type: ignore[assignment]
     """File-like input object for reading the body part of the
     multipart form request, if any. This object provides direct access
